@@ -7,7 +7,9 @@ package main
 // for generated derived specs (udDerive in udial.go): a fault schedule on the first flights
 // (drop / duplicate / delay of the first datagrams in both directions) x dial index 1..3 on the
 // SAME spec value x server configuration (default, small windows + datagrams, Retry, long
-// certificate chain, other packet size): the handshake completes and 20 KB are echoed through a
+// certificate chain, other packet size, short idle timeouts, version 2 only = the client is sent
+// a Version Negotiation packet and builds a second connection inside the same Dial): the
+// handshake completes and 20 KB are echoed through a
 // stream (client -> server -> client). Also UTransport{QUICSpec: nil} against plain Transport.
 //
 // Monitors:
@@ -53,7 +55,7 @@ type sdCase struct {
 	EchoN   int
 }
 
-var sdSrvNames = []string{"default", "small-windows", "retry", "long-chain", "pkt1350", "idle-short"}
+var sdSrvNames = []string{"default", "small-windows", "retry", "long-chain", "pkt1350", "idle-short", "v2-only"}
 var sdCliNames = []string{"default", "pkt1200", "timeouts"}
 
 func (c sdCase) String() string {
@@ -82,6 +84,12 @@ func sdOpts(c sdCase) simOpts {
 		o.ServerConf = &quic.Config{InitialPacketSize: 1350, DisablePathMTUDiscovery: true}
 	case 5:
 		o.ServerConf = &quic.Config{MaxIdleTimeout: 8 * time.Second, HandshakeIdleTimeout: 6 * time.Second, KeepAlivePeriod: 2 * time.Second}
+	case 6: // the client starts with version 1, is sent a Version Negotiation packet and builds a second connection (same Dial)
+		o.ServerConf = &quic.Config{Versions: []quic.Version{quic.Version2}}
+		o.ClientConf = &quic.Config{Versions: []quic.Version{quic.Version1, quic.Version2}}
+	}
+	if c.Srv == 6 {
+		return o
 	}
 	switch c.Cli {
 	case 1:
@@ -386,7 +394,7 @@ func runSimDial(w *bufio.Writer, seed uint64, n int, args []string) {
 			c := sdCase{Name: name, Q: name, Spec: sp, Dials: 3, EchoN: 20000, SameEnv: i%2 == 1, GapMs: sdGap(rr)}
 			if i > 0 {
 				c.Faults = sdGenFaults(rr)
-				c.Srv = []int{0, 0, 1, 2, 3, 4, 5}[rr.Intn(7)]
+				c.Srv = []int{0, 0, 1, 2, 3, 4, 5, 6}[rr.Intn(8)]
 				c.Cli = []int{0, 0, 1, 2}[rr.Intn(4)]
 			}
 			emit(c)
@@ -405,7 +413,7 @@ func runSimDial(w *bufio.Writer, seed uint64, n int, args []string) {
 		}
 		c := sdCase{Name: d.Desc, Q: base, Kind: kind, Spec: d.Spec, Dials: 3, EchoN: 20000, SameEnv: rr.Bool(), GapMs: sdGap(rr)}
 		c.Faults = sdGenFaults(rr)
-		c.Srv = []int{0, 0, 0, 1, 2, 3, 4, 5}[rr.Intn(8)]
+		c.Srv = []int{0, 0, 0, 1, 2, 3, 4, 5, 6}[rr.Intn(9)]
 		c.Cli = []int{0, 0, 1, 2}[rr.Intn(4)]
 		emit(c)
 		rep.dist["derived "+kind]++
